@@ -277,9 +277,33 @@ def ch_case(impl, model, ops):
     return None, 'ok'
 
 
+def ch_judge(impl, model, ops):
+    """the contract monitor's verdict on the implementation's own trace of a code-holder op script:
+    None = accepted, else (signature, text, detail)"""
+    lines = ['0 init', '0 ch_new 0'] + ['0 ch_' + o for o in ops] + ['0 finish']
+    rc, out, err = run_script(impl, lines)
+    if rc == 64:
+        return None
+    traces, steps, results, notes = parse(out)
+    tr = traces.get(0, [])
+    if rc != 0:
+        return ('codeholder-crash', 'the library crashed (rc %d) on a code-holder op script' % rc, dict(notes=notes[-3:]))
+    v = monitor(model, [';'.join(e[0] for e in tr)])[0]
+    if not v.startswith('REJECT'):
+        return None
+    idx = int(v.split()[1])
+    sig, what, detail = describe(impl, tr, idx, steps)
+    detail['index'] = idx
+    return ('codeholder:' + sig, what, detail)
+
+
 def ch_correspond(chk, impl, model, n):
+    """code-holder op scripts on the real functions and on the Coq model.  Every script is also a history of its own:
+    the implementation's trace is judged by the contract monitor (a rejection is a concrete failing input).  A mere
+    difference between model and implementation breaks the tie; it is reported as such (no failing input) only when
+    no script's implementation trace is rejected."""
     rng = chk.rng('codeholder')
-    nbad = 0
+    diffs, concrete = [], {}
     for _ in range(n):
         ops = G.ch_script(rng, rng.choice([4, 10, 25, 60]))
         bad, status = ch_case(impl, model, ops)
@@ -287,36 +311,47 @@ def ch_correspond(chk, impl, model, n):
         chk.dist('codeholder_cases', status)
         for o in ops:
             chk.dist('codeholder_ops', o.split()[0])
-        if bad is not None and nbad < 2:
-            nbad += 1
-
-            def fails(sub):
-                try:
-                    b, st = ch_case(impl, model, sub)
-                except vlib.BuildError:
-                    return False
-                return b is not None and st == status and b[0] != 'run' or (st == 'crash' and status == 'crash')
-            small = vlib.shrink_list(ops, fails, max_steps=150)
-            b2, st2 = ch_case(impl, model, small)
-            if b2 is None:
-                small, b2 = ops, bad
-            # Is the property itself violated on this input?  The implementation's own allocator trace is judged by the
-            # verified monitor: rejected = a concrete failing input; accepted = only the tie (model = code) is broken.
-            lines = ['0 init', '0 ch_new 0'] + ['0 ch_' + o for o in small] + ['0 finish']
-            rc_i, out_i, err_i = run_script(impl, lines)
-            tr_i = parse(out_i)[0].get(0, [])
-            verdict = monitor(model, [';'.join(e[0] for e in tr_i)])[0] if tr_i else 'REJECT 0'
-            concrete = status == 'crash' or rc_i != 0 or verdict.startswith('REJECT')
-            chk.finding('codeholder-%s:%s' % (status, str(b2[1]).split()[0]),
-                        dict(ops=small, at=b2[0], op=b2[1], implementation=b2[2], model=b2[3], monitor_on_implementation_trace=verdict,
-                             how='ops are run by harness/c17_alloc.c (ch_* commands on _MIR_publish_code & co.) and by the Coq model chstep'),
-                        'code holders (mir.c) and their verified model disagree at op %s: implementation %s, model %s; %s' % (
-                            b2[1], json.dumps(b2[2])[:200], json.dumps(b2[3])[:200],
-                            'the contract monitor REJECTS the implementation trace' if concrete else
-                            'the contract monitor accepts the implementation trace: only the correspondence chstep = mir.c '
-                            '(theorem code_holder_traces_accepted) no longer checks'),
-                        no_input=not concrete)
-    return nbad
+        if bad is not None:
+            diffs.append((ops, bad, status))
+            if len(concrete) < 3:
+                j = ch_judge(impl, model, ops)
+                if j is not None and j[0] not in concrete:
+                    concrete[j[0]] = (ops, j)
+    for sig, (ops, j) in sorted(concrete.items()):
+        def rejects(sub, sig=sig):
+            try:
+                jj = ch_judge(impl, model, sub)
+            except vlib.BuildError:
+                return False
+            return jj is not None and jj[0] == sig
+        small = vlib.shrink_list(ops, rejects, max_steps=120)
+        jj = ch_judge(impl, model, small) or j
+        chk.finding(sig, dict(ops=small, detail=jj[2],
+                              how='ops are run by harness/c17_alloc.c (ch_* commands on _MIR_publish_code & co.); its trace is judged by the verified monitor'),
+                    'code-holder operations: ' + jj[1])
+    for ops, bad, status in diffs[:2]:
+        def fails(sub, status=status):
+            try:
+                b, st = ch_case(impl, model, sub)
+            except vlib.BuildError:
+                return False
+            return b is not None and st == status and b[0] != 'run' or (st == 'crash' and status == 'crash')
+        small = vlib.shrink_list(ops, fails, max_steps=150)
+        b2, st2 = ch_case(impl, model, small)
+        if b2 is None:
+            small, b2 = ops, bad
+        what = 'code holders (mir.c) and their verified model disagree at op %s: implementation %s, model %s' % (
+            b2[1], json.dumps(b2[2])[:200], json.dumps(b2[3])[:200])
+        replay_obj = dict(ops=small, at=b2[0], op=b2[1], implementation=b2[2], model=b2[3],
+                          how='ops are run by harness/c17_alloc.c (ch_* commands on _MIR_publish_code & co.) and by the Coq model chstep')
+        if concrete or status == 'crash':
+            # the failing input is reported above; this is the broken tie that goes with it
+            chk.finding('codeholder-%s:%s' % (status, str(b2[1]).split()[0]), replay_obj, what, no_input=status != 'crash' and not concrete)
+        else:
+            chk.finding('codeholder-%s:%s' % (status, str(b2[1]).split()[0]), replay_obj,
+                        what + '; the contract monitor accepts the implementation traces of all %d scripts: only the '
+                        'correspondence chstep = mir.c (theorem code_holder_traces_accepted) no longer checks' % n, no_input=True)
+    return len(diffs) + len(concrete)
 
 
 def asan_pass(chk, model, scen, seen_sigs):
@@ -347,6 +382,40 @@ def asan_pass(chk, model, scen, seen_sigs):
                                 'AddressSanitizer (freed blocks of the checking allocator poisoned): %s in %s' % (
                                     kind.group(1) if kind else '?', lib[0] if lib else '?'))
     chk.log('asan pass: %d histories' % n)
+
+
+C_ERRORS = {
+    'syntax': 'long f1 (long n) { return n + ; }\n',
+    'undeclared': 'long f1 (long n) { return n + undeclared_var; }\n',
+    'missing-include': '#include "nonexistent.h"\nlong f1 (long n) { return n; }\n',
+    'unterminated-macro-call': '#define A(x) x\nlong f1 (long n) { return A(n; }\n',
+    'error-directive': '#error stop here\nlong f1 (long n) { return n; }\n',
+    'unterminated-if': '#if 1\nlong f1 (long n) { return n; }\n',
+    'type': 'struct s { int a; }; long f1 (long n) { struct s x; return x + n; }\n',
+    'redeclaration': 'long f1 (long n) { int n; return n; }\nint f1;\n',
+    'several': 'long f1 (long n) { return n + ; }\nlong g (long n) { return m; }\n#define X(\nint y = X;\nstruct { int a : 70; } s;\n',
+}
+
+
+def error_path_observations(chk, impl, model):
+    """NOT judged (the property quantifies over error-free histories): a C unit with a diagnosed error (c2mir_compile
+    returns 0), then a good unit, then the finish calls.  What the monitor says is recorded in the evidence only."""
+    good = 'long f2 (long n) { return n * 2; }\n'
+    obs = {}
+    for k, src in sorted(C_ERRORS.items()):
+        L = ['0 init', '0 c2m_init', '0 c2mx u1.c ' + G.hexs(src), '0 c2m u2.c ' + G.hexs(good), '0 c2m_finish', '0 load',
+             '0 link interp', '0 interp f2 4', '0 finish']
+        try:
+            probs, status, *_ = check_script(impl, model, L)
+        except vlib.BuildError as e:
+            obs[k] = 'harness: %s' % str(e)[:80]
+            continue
+        obs[k] = 'clean' if status == 'ok' and not probs else (status if status != 'ok' else '; '.join('%s (%s)' % (p[0], p[1][:70]) for p in probs))
+    chk.cov['error_path_observations_not_judged'] = obs
+    dirty = {k: v for k, v in obs.items() if v != 'clean'}
+    if dirty:
+        chk.notes.append('histories with a diagnosed C error (outside the property: not judged): %s' % dirty)
+    chk.log('error-path observations (not judged): %d clean, %d not: %s' % (len(obs) - len(dirty), len(dirty), sorted(dirty)))
 
 
 def short(lines):
@@ -380,7 +449,6 @@ def run(chk):
         'harness/c17_alloc.c: the checking MIR_alloc/MIR_code_alloc callbacks, the SIGSEGV handler, the --wrap interposition and the page diffing are trusted to log faithfully',
         'tools/tr_c17_sites.py (readelf -r over -O0 -ffunction-sections objects; regex over comment-stripped sources)',
         'OS: mprotect really prevents writes to READ|EXEC pages']
-    G.tree_flags(vlib.REPO)
     scen = []
     corpus = os.path.join(vlib.VERIF, 'corpus', 'c17_scripts.jsonl')
     if os.path.exists(corpus):
@@ -436,6 +504,7 @@ def run(chk):
                               how='./check C17 --replay <this file>  (feeds the script to harness/c17_alloc.c and the trace to the verified monitor)'),
                     what)
     nfix = len(scen) - n
+    error_path_observations(chk, impl, model)
     asan_pass(chk, model, scen[:nfix] + scen[-(10 if quick else 150):], seen_sigs)
     nbad = ch_correspond(chk, impl, model, 150 if quick else 20000)
     if nbad:
@@ -458,6 +527,11 @@ def run(chk):
 def replay(chk, path):
     j = json.load(open(path))
     impl, model = build()
+    if 'ops' in j['replay'] and j.get('signature', '').startswith('codeholder:'):   # contract breach on a code-holder op script
+        jj = ch_judge(impl, model, j['replay']['ops'])
+        print('ops:', j['replay']['ops'])
+        print('monitor:', 'accepted' if jj is None else jj[:2])
+        return 1 if jj is not None else 0
     if 'ops' in j['replay']:            # code-holder correspondence case
         bad, status = ch_case(impl, model, j['replay']['ops'])
         print('ops:', j['replay']['ops'])
